@@ -141,9 +141,17 @@ func (r Req) URL() (method, path string) {
 		return "POST", "/querier.v1.QuerierService/SelectMergeStacktraces"
 	case "prof_series":
 		return "POST", "/querier.v1.QuerierService/Series"
+	case "prof_merge_profiles":
+		return "POST", "/querier.v1.QuerierService/SelectMergeProfile"
+	case "prof_stats":
+		return "POST", "/types.v1.ProfileStatsService/GetProfileStats" // falls through to the router's answer when the route differs
 	case "render_diff":
-		set("leftQuery", r.Query)
-		set("rightQuery", r.Query)
+		pq := r.Query
+		if strings.HasPrefix(pq, "{") {
+			pq = "process_cpu:cpu:nanoseconds:cpu:nanoseconds" + pq
+		}
+		set("leftQuery", pq)
+		set("rightQuery", pq)
 		set("leftFrom", r.Start)
 		set("leftUntil", r.End)
 		set("rightFrom", r.Start)
@@ -213,7 +221,7 @@ var limitVals = []string{"", "0", "1", "10", "100", "1000", "-1", "abc", "999999
 var promQueries = []string{`up`, `rate(http_requests_total{job="a"}[5m])`, `sum by (job) (rate(x[1m]))`, `x{a=~"b.*"} > 2`, `histogram_quantile(0.9, sum(rate(b_bucket[5m])) by (le))`, `{__name__=~".+"}`, `1+1`, `x offset 5m`, `avg_over_time(x[10m:1m])`, `label_replace(up, "a", "$1", "b", "(.*)")`}
 var traceQLs = []string{`{}`, `{.a="b"}`, `{span.http.status=200 && resource.service.name="x"}`, `{.a=~"b.*" || name="op"}`, `{duration>1s} | count() > 2`, `{.a="b"} && {.c="d"}`, `{.a="b"} || {.c!="d"} | avg(duration) > 1ms`, `{.x > 5.5}`}
 var kinds = []string{"query_range", "query_range", "query_range", "query", "labels", "label_values", "series", "prom_range", "prom_instant", "prom_labels", "prom_label_values", "prom_series",
-	"trace", "trace_json", "search", "tags", "tags_v2", "tag_values", "tag_values_v2", "prof_types", "prof_label_names", "prof_label_values", "prof_select_series", "prof_merge", "prof_series", "render_diff", "tail"}
+	"trace", "trace_json", "search", "tags", "tags_v2", "tag_values", "tag_values_v2", "prof_types", "prof_label_names", "prof_label_values", "prof_select_series", "prof_merge", "prof_series", "prof_merge_profiles", "render_diff", "tail"}
 
 func genResult(rt *rapid.T, l string, faulty bool) sqlfake.Result {
 	r := sqlfake.Result{
@@ -293,6 +301,14 @@ func genReq(rt *rapid.T, l string, faulty bool) Req {
 		r.Query = mutate(rt, l+".m", r.Query)
 	}
 	r.Result = genResult(rt, l+".res", faulty)
+	if strings.HasPrefix(r.Kind, "prof") || r.Kind == "render_diff" {
+		// what the Pyroscope tables hold: well formed, or (with faults on) any shape a database can return
+		shapes := []int{0, 0, 0, 3, 8}
+		if faulty {
+			shapes = []int{0, 0, 1, 2, 3, 4, 5, 6, 7, 8}
+		}
+		r.Result.ProfShape = rapid.SampledFrom(shapes).Draw(rt, l+".profshape")
+	}
 	if faulty {
 		// a client that gives up is most interesting while the database is stalling or slow
 		cancelOdds := 5
